@@ -174,7 +174,10 @@ def St.stmt (st : St) : Stmt → St
   | .g n => st.subshell n
   | .gg n => st.subshell ((nestedWait st.useSys st.digits (st.runs + 1) [n]).getD 0 999)
   | .gp ms =>
-    st.subshell (pipeFold st.useSys st.pf (nestedWait st.useSys st.digits (st.runs + 2) (st.members ms)))
+    let st1 := st.subshell (pipeFold st.useSys st.pf (nestedWait st.useSys st.digits (st.runs + 2) (st.members ms)))
+    match pipeOutput ms with
+    | some w => { st1 with out := s!"o:{w}" :: st1.out }
+    | none => st1
   | .gb n => st.subshell ((nestedWait st.useSys st.digits (st.runs + 3) [n]).getD 0 999)
   | .gw a b =>
     let got := nestedWait st.useSys st.digits (st.runs + 4) [a, b]
